@@ -9,7 +9,7 @@ import (
 // C17_caller_bytes: the write-side APIs documented as non-mutating leave the caller's slice
 // bit-for-bit intact (client side = masking involved).
 func C17_caller_bytes() {
-	n := []int{0, 1, 5, 126, 130, 4097, 65537, 65539}[vChoose("n", 8)]
+	n := []int{0, 1, 5, 126, 128, 130, 1024, 4097, 65537, 65539}[vChoose("n", 10)] // incl. capacities that are pool size classes
 	var p []byte
 	if n <= 130 {
 		p = vBytes("p", n)
@@ -26,7 +26,7 @@ func C17_caller_bytes() {
 	// the client state as applications hold it: alone, or with the extension / fragmentation
 	// flags that come with negotiated extensions
 	st := ws.StateClientSide | []ws.State{0, ws.StateExtended, ws.StateFragmented | ws.StateExtended}[vChoose("stateflags", 3)]
-	switch vChoose("api", 4) {
+	switch vChoose("api", 6) {
 	case 0:
 		vAssert(WriteClientMessage(dst, ws.OpBinary, p) == nil, "caller.writemessage_ok")
 	case 1:
@@ -36,11 +36,20 @@ func C17_caller_bytes() {
 		w := NewWriterSize(dst, st, ws.OpBinary, 4)
 		w.Write(p)
 		w.Flush()
+	case 4: // server-side message write: nothing to mask, the caller's slice goes out as it is
+		vAssert(WriteServerMessage(dst, ws.OpBinary, p) == nil, "caller.writeservermessage_ok")
+	case 5:
+		w := NewWriterSize(dst, ws.StateServerSide|(st&^ws.StateClientSide), ws.OpBinary, 4)
+		w.Write(p)
+		w.Flush()
 	case 3:
 		cw := NewCipherWriter(dst, [4]byte{vU8("k0"), vU8("k1"), vU8("k2"), vU8("k3")})
 		cw.Write(p)
 	}
 	vAssert(vEqBytes(p, keep), "caller.bytes_intact")
+	// ... and stays the caller's: later users of the library's pools do not get to write into it
+	vPoisonPools()
+	vAssert(vEqBytes(p, keep), "caller.bytes_intact_after_pool_reuse")
 	// what reached the destination does not change when the caller reuses its slice
 	sent := append([]byte{}, dst.all...)
 	for i := range p {
